@@ -39,6 +39,16 @@ def relSets (cands : List (List Nat)) (pre post : State) : Option String :=
       some "an idle candidate that still fits was not taken"
     else none
 
+/-- functional tie to the loop model: with the candidates ordered "taken first" (the oracle order read off the
+implementation's result), `foldStage` - the subject of `foldStage_inv` - must produce the implementation's post state -/
+def viaFold (cands : List (List Nat)) (pre post : State) : Option String :=
+  let taken := post.result.filter (fun x => !pre.result.contains x)
+  let T := cands.filter (fun c => !c.isEmpty && c.any (taken.contains ·))
+  let U := cands.filter (fun c => !c.isEmpty && !(c.any (taken.contains ·)))
+  let m := foldStage (T ++ U) pre
+  if sameSet m.result post.result && sameSet m.from_ post.from_ && m.cnt == post.cnt then none
+  else some s!"foldStage over (taken ++ untaken) candidates gives result={m.result} from={m.from_} cnt={m.cnt}"
+
 def step (st : St) (toks : List String) : St × List Issue :=
   match toks with
   | ["M", _, pk, co, pr, off, _, _] =>
@@ -61,14 +71,20 @@ def step (st : St) (toks : List String) : St × List Issue :=
             let c := online p
             if prefer < 3 then c.filter (fun x => (st.prios.getD prefer []).contains x) else c
           let idle := cands.filter (fun c => c.all (pre.from_.contains ·))
+          let is := match viaFold idle pre post with | some e => is ++ [⟨.model, s!"takeIdlePackages: {e}"⟩] | none => is
           match relSets idle pre post with | some e => is ++ [⟨.model, s!"takeIdlePackages: {e}"⟩] | none => is
         | "cores" =>
           let idle := (st.cores.map online).filter (fun c => !c.isEmpty && c.all (pre.from_.contains ·))
+          let is := match viaFold idle pre post with | some e => is ++ [⟨.model, s!"takeIdleCores: {e}"⟩] | none => is
           match relSets idle pre post with | some e => is ++ [⟨.model, s!"takeIdleCores: {e}"⟩] | none => is
         | "threads" =>
           let cand := online pre.from_
           let taken := post.result.filter (fun x => !pre.result.contains x)
           let m := takeThreads pre taken
+          -- (the loop model on the oracle order: taken CPUs first; the real dispatcher runs this stage only while cnt > 0)
+          let ts := if pre.cnt > 0 then threadStage (taken ++ cand.filter (fun x => !taken.contains x)) pre else pre
+          let is := if pre.cnt > 0 && !(sameSet ts.result post.result && sameSet ts.from_ post.from_ && ts.cnt == post.cnt) then
+            is ++ [⟨.model, s!"takeIdleThreads: threadStage gives result={ts.result} from={ts.from_} cnt={ts.cnt}"⟩] else is
           if !(taken.all (cand.contains ·) && taken.length == min pre.cnt cand.length && sameSet m.result post.result && sameSet m.from_ post.from_ && m.cnt == post.cnt) then
             is ++ [⟨.model, "takeIdleThreads: post is not pre with min(cnt, candidates) single CPUs taken"⟩] else is
         | _ => is
